@@ -16,4 +16,7 @@ CONSTANTS
   RecordHist = TRUE
   Canon = FALSE
   Coarse = TRUE
+  MutPrecedence = FALSE
+  MutNoCatch = FALSE
+  KilledMayRaise = TRUE
 INVARIANTS TypeOK PassOnlyIfClean VerdictModuloKnown OrderIndependenceModuloKnown ExitNonZeroIffNotAllPass ValidNeverAbstract OneOutputPerQuery
